@@ -9,10 +9,11 @@
 #include <sys/time.h>
 #include <sys/personality.h>
 #include <unistd.h>
+#include <execinfo.h>
 
 /* sanitizer defaults: classified by exit code 77, no leak sweep (the simulator does its own accounting) */
 __attribute__((used)) const char* __asan_default_options(void) { return "exitcode=77:detect_leaks=0:allocator_may_return_null=1:abort_on_error=0:detect_stack_use_after_return=0"; }
-__attribute__((used)) const char* __ubsan_default_options(void) { return "exitcode=77:print_stacktrace=1:halt_on_error=1"; }
+__attribute__((used)) const char* __ubsan_default_options(void) { return "exitcode=77:print_stacktrace=1"; }
 __attribute__((used)) const char* __tsan_default_options(void) { return "exitcode=77:halt_on_error=1:report_signal_unsafe=0:second_deadlock_stack=1"; }
 
 /* simulator infrastructure and harness code are not TSan-instrumented, but libc interceptors (memcpy, strcmp, snprintf...)
@@ -25,6 +26,14 @@ static void on_cpu_cap(int sig) {
     (void)sig;
     if (write(1, m, sizeof m - 1) < 0) {}
     _exit(68);
+}
+
+static void on_crash(int sig) {
+    void* bt[24]; int n; char m[64]; int l = snprintf(m, sizeof m, "\nCRASH signal %d backtrace:\n", sig);
+    alarm(5);   /* the handler is not async-signal-safe (crash inside malloc): never hang */
+    if (write(2, m, (size_t)l) < 0) {}
+    n = backtrace(bt, 24); backtrace_symbols_fd(bt, n, 2);
+    signal(sig, SIG_DFL); raise(sig);
 }
 
 const Scenario* find_scenario(const char* name) {
@@ -58,9 +67,16 @@ int main(int argc, char** argv) {
         else if (!strcmp(argv[i], "--verbose")) g_sim_verbose = 1;
         else { fprintf(stderr, "unknown option %s\n", argv[i]); return 2; }
     }
+    g_sim_root = root;
     sc = find_scenario(scen_name);
     if (!sc && !plan_path) { fprintf(stderr, "unknown scenario %s\n", scen_name); return 2; }
+    { void* warm[2]; backtrace(warm, 2); }   /* load the unwinder now, not inside a crash handler */
     signal(SIGVTALRM, on_cpu_cap);
+#if !defined(__SANITIZE_ADDRESS__) && !defined(__SANITIZE_THREAD__)
+#if !__has_feature(address_sanitizer) && !__has_feature(thread_sanitizer)
+    signal(SIGSEGV, on_crash); signal(SIGBUS, on_crash); signal(SIGFPE, on_crash); signal(SIGABRT, on_crash); signal(SIGILL, on_crash);
+#endif
+#endif
     setvbuf(stdout, NULL, _IOLBF, 0);
 
     for (n = 0; n < count; n++) {
@@ -79,7 +95,7 @@ int main(int argc, char** argv) {
         }
         if (gen_only) { printf("# run %ld\n", idx); plan_print(&plan, stdout); plan_free(&plan); continue; }
         { struct itimerval it; memset(&it, 0, sizeof it); it.it_value.tv_sec = cpu_cap; setitimer(ITIMER_VIRTUAL, &it, NULL); }
-        sim_alloc_reset();
+        sim_alloc_reset(); sim_wrap_reset();
         sim_sched_cfg_from_plan(&cfg, &plan);
         sim_sched_reset(&cfg);
         sim_on_deadlock = NULL;
@@ -87,7 +103,7 @@ int main(int argc, char** argv) {
         sc->exec(&plan);
         sim_sched_finish(&st);
         sim_event("sched steps=%ld switches=%ld sig=%016llx", st.steps, st.switches, (unsigned long long)st.signature);
-        sim_probe_n("sched.steps", st.steps); sim_probe_n("sched.switches", st.switches); sim_probe_n("sched.choices", st.choices);
+        sim_probe_n("sched.steps", st.steps); sim_probe_n("sched.switches", st.switches); sim_probe_n("sched.choices", st.choices); if (st.fair_forced) sim_probe_n("sched.fairness_forced_switch", st.fair_forced);
         if (st.threads_created) printf("SCHED %ld sig=%016llx steps=%ld sw=%ld\n", idx, (unsigned long long)st.signature, st.steps, st.switches);
         if (dump_trace) { int nt, k; const uint8_t* t = sim_sched_trace(&nt); printf("TRACE"); for (k = 0; k < nt; k++) printf(" %u", t[k]); printf("\n"); }
         sim_run_end_ok();
